@@ -149,8 +149,10 @@ CLAIMS = {
         "decompose-then-compose round trips for 2-, delta-, Y- and 3-sums; a 1-sum is TU iff all blocks are; the components of a TU 2-sum are TU "
         "and the 2-sum of TU components is TU (over GF(3), and over GF(2) for 0/1 operands), in Mathlib's sense; the delta-sum and the Y-sum of "
         "TU operands are TU (C12Delta.lean: determinant identity for rank-one coupled blocks, no pivoting; for the model's composeDelta / "
-        "composeY with special lines in arbitrary positions). Not proved: TU of Truemper's 3-sum (compose3) and the converse directions for "
-        "delta/Y/3-sums - tested on the explored domain only. Tie: CMRonesumCompose/CMRtwosumCompose/CMRdeltasumCompose/"
+        "composeY with special lines in arbitrary positions). Truemper's 3-sum of TU operands with a TU connecting matrix N is TU as well (C12Three.lean: bordered-matrix / Schur-complement "
+        "argument; compose3 with special lines in arbitrary positions) - so every composition of the library preserves total "
+        "unimodularity. Not proved: the converse directions for delta/Y/3-sums (components of a TU sum are TU) - tested on the explored "
+        "domain only. Tie: CMRonesumCompose/CMRtwosumCompose/CMRdeltasumCompose/"
         "CMRysumCompose/CMRthreesumCompose compared exactly with the model on valid and invalid operand/special-index choices; the library's own "
         "decomposition sequence (representatives, epsilon, connecting element, DecomposeFirst/Second) run on seeded separations, its components "
         "validated (shape conditions, TU by the oracle) and recomposed by library and model.",
